@@ -428,6 +428,52 @@ pub fn run(args: &Args) -> ! {
     }
     families.push(("prefix-postfix-stacks".into(), f4));
 
+    // 5. compound expressions in argument / index / cast-operand position, nested once more and
+    //    used as operands (in minimal and in full parenthesisation)
+    let b = Ex::Var("b");
+    let args: Vec<Ex> = vec![
+        a.clone(),
+        one.clone(),
+        Ex::Index(bx(&a), bx(&one)),
+        Ex::Field(bx(&a), "b"),
+        Ex::Call(bx(&a), vec![b.clone(), Ex::Int("2")]),
+        Ex::Un("-", bx(&a)),
+        Ex::Ref(false, bx(&a)),
+        Ex::Bin("+", bx(&a), bx(&one)),
+        Ex::Bin("*", Box::new(Ex::Bin("+", bx(&a), bx(&one))), bx(&b)),
+        Ex::Try(bx(&a)),
+        Ex::Cast(bx(&a), bx(&b)),
+        Ex::Deref(bx(&a)),
+        Ex::Bin("<", bx(&a), bx(&b)),
+        Ex::Bin("||", bx(&a), bx(&b)),
+    ];
+    let mut forms: Vec<Ex> = Vec::new();
+    for x in &args {
+        forms.push(Ex::Call(bx(&a), vec![x.clone()]));
+        forms.push(Ex::Index(bx(&a), bx(x)));
+        forms.push(Ex::Cast(bx(&a), bx(x)));
+        for y in &args {
+            forms.push(Ex::Call(bx(&a), vec![x.clone(), y.clone()]));
+            forms.push(Ex::Call(Box::new(Ex::Field(bx(&a), "b")), vec![x.clone(), y.clone(), one.clone()]));
+        }
+    }
+    let mut f5 = forms.clone();
+    for f in &forms {
+        // nested once more, and as an operand of every level
+        f5.push(Ex::Call(bx(&b), vec![f.clone(), a.clone()]));
+        f5.push(Ex::Call(bx(&b), vec![a.clone(), f.clone()]));
+        f5.push(Ex::Index(bx(&b), bx(f)));
+        f5.push(Ex::Un("-", bx(f)));
+        f5.push(Ex::Ref(true, bx(f)));
+        f5.push(Ex::Try(bx(f)));
+        f5.push(Ex::Field(bx(f), "b"));
+        for op in ["||", "&&", "<", "-", "*"] {
+            f5.push(Ex::Bin(op, bx(f), bx(&one)));
+            f5.push(Ex::Bin(op, bx(&one), bx(f)));
+        }
+    }
+    families.push(("compound-arguments".into(), f5));
+
     let mut total = Acc::default();
     let mut bounds = Vec::new();
     for (name, trees) in &families {
